@@ -534,6 +534,46 @@ fn run_case(tier: Tier, fam: &str, idx: u64, t: &mut Tally) {
         }
         return;
     }
+    if fam == "densedisp" {
+        // DENSE displacement sweep: d literals, then ONE reference of every displacement
+        // 1..=4096 (each length form of the format), then two literals; and the same reference
+        // reaching one byte before the start (must be rejected)
+        const LENS10: [usize; 2] = [3, 18];
+        const LENS11: [usize; 5] = [3, 16, 17, 272, 273];
+        let d = (idx % 4096) as usize + 1;
+        let li = (idx / 4096) as usize;
+        let (kind, len) = if li < LENS10.len() { (Kind::Lz10, LENS10[li]) } else { (Kind::Lz11, LENS11[li - LENS10.len()]) };
+        let mut toks: Vec<Token> = (0..d).map(|i| Token::Lit(lit_at(i))).collect();
+        toks.push(Token::Ref { len, disp: d });
+        toks.push(Token::Lit(0xE1));
+        toks.push(Token::Lit(0xE2));
+        let total = d + len + 2;
+        let good = ref_lz::encode(&toks, kind, total, None);
+        t.cases += 1;
+        t.nontrivial += 1;
+        let entries: Vec<(Entry, Vec<u8>)> = match kind {
+            Kind::Lz10 => vec![(Entry::Lz10, good.clone()), (Entry::Lz10Enum, good.clone()), (Entry::Lz13, good.clone())],
+            Kind::Lz11 => vec![(Entry::Lz13, good.clone()), (Entry::Lz13Enum, wrap13(&good))],
+        };
+        for (e, bytes) in entries {
+            if let Some((sig, summary)) = check(e, &bytes, &format!("{} literals then a reference of length {} at displacement {}", d, len, d), t) {
+                t.violate(format!("{}:displacement-sweep", sig), summary, json!({"family": fam, "index": idx}));
+            }
+        }
+        if d < 4096 {
+            let bad = ref_lz::encode(&toks, kind, total, Some((d, d)));
+            let entries: Vec<(Entry, Vec<u8>)> = match kind {
+                Kind::Lz10 => vec![(Entry::Lz10, bad.clone()), (Entry::Lz13, bad.clone())],
+                Kind::Lz11 => vec![(Entry::Lz13, bad.clone()), (Entry::Lz13Enum, wrap13(&bad))],
+            };
+            for (e, bytes) in entries {
+                if let Some((sig, summary)) = check(e, &bytes, &format!("{} literals then a reference at displacement {} (one before the start)", d, d + 1), t) {
+                    t.violate(format!("{}:displacement-sweep", sig), summary, json!({"family": fam, "index": idx}));
+                }
+            }
+        }
+        return;
+    }
     if fam == "hist" {
         let all = history_streams();
         let n = all.len() as u64;
@@ -602,6 +642,7 @@ fn families(tier: Tier) -> Vec<Family> {
     f.push(Family::new("ext", ext_count()));
     f.push(Family::new("stored", stored_cases().len() as u64));
     f.push(Family::new("lz11huge", HUGE_REFS.len() as u64));
+    f.push(Family::new("densedisp", 4096 * 7));
     let h = history_streams().len() as u64;
     f.push(Family::new("hist", h * h));
     f
